@@ -435,3 +435,56 @@ def dzkp_validate_path(ctx, facts, rule):
             okm = "SharedRandomness::generate" in a and "('arg', 3)" in a or ("generate" in a and "upvar" in a)
         ctx.ob(rule, "check_zero:verdict", okz, "Ok(opened r*v == 0)" if okz else "check_zero's verdict is not the comparison of the opened product with zero", site_of(cz))
         ctx.ob(rule, "check_zero:masks-with-random-r", okm, "v is multiplied by a fresh shared random r before opening" if okm else "check_zero opens v without a fresh random mask (leaks v) or does not multiply the input", site_of(cz, mul[0][0]) if mul else site_of(cz))
+
+
+VEC_READ = re.compile(r"Vec::<T, A>::(len|is_empty|iter|capacity|as_slice|get|first|last|reserve|reserve_exact)$|Vec::<T>::(with_capacity|new)$|^std::ops::Index::index$|Deref::deref$|IntoIterator::into_iter$|Clone::clone$|Debug|fmt$")
+VEC_GROW = re.compile(r"Vec::<T, A>::(push|extend|extend_from_slice|append)$|^std::ops::IndexMut::index_mut$|DerefMut::deref_mut$|Vec::<T, A>::(iter_mut|get_mut|as_mut_slice)$")
+
+
+def batch_store_grows(ctx, facts, rule):
+    """Recorded multiplication inputs are never discarded before they are proved: every operation on
+    MultiplicationInputsBatch.vec either reads, writes in place, or grows it; resize_with(n) only under len <= n."""
+    from vlib import bounds
+    ctx.rule(f"{rule}: every call on MultiplicationInputsBatch.vec is a read, an in-place write or a growth; `resize_with(n, ..)` (which truncates when n < len) must be dominated by a guard edge implying len <= n; nothing else may shrink or replace the store before Batch::validate consumes it")
+    P = "protocol::context::dzkp_validator::MultiplicationInputsBatch::"
+    n = 0
+    for b in sorted(facts.non_test_bodies(), key=lambda x: x.path):
+        if not b.path.startswith(P) and not b.root.startswith(P):
+            continue
+        dom = None
+        for bb, t in b.calls():
+            if not t["args"]:
+                continue
+            e = flow.strip_casts(flow.expr_of(b, t["args"][0]))
+            if not (e[0] in ("arg", "upvar", "place") and e[-1] == "vec"):
+                continue
+            fn = F.callee(t)[0] or ""
+            short = fn.split("::")[-1]
+            name = b.path.replace(P, "")
+            n += 1
+            if VEC_READ.search(fn) or VEC_GROW.search(fn):
+                ctx.ob(rule, f"{name}:{short}", True, "read / in-place write / growth", site_of(b, bb))
+                continue
+            if fn.endswith("::resize_with") or fn.endswith("::resize"):
+                dom = dom or b.dominators()
+                target = bounds.lin_of(flow.expr_of(b, t["args"][1]))
+                def p(f):
+                    op, l, r = f
+                    if op in ("Lt", "Le") and l[0] == "call" and l[1].endswith("::len") and flow.strip_casts(l[2][0]) == e:
+                        g = bounds.lin_of(r)
+                        return g.sym == target.sym and target.off >= g.off
+                    if op in ("Gt", "Ge") and r is not None and r[0] == "call" and r[1].endswith("::len") and flow.strip_casts(r[2][0]) == e:
+                        g = bounds.lin_of(l)
+                        return g.sym == target.sym and target.off >= g.off
+                    return False
+                ok = flow.holds(b, dom, bb, p)
+                ctx.ob(rule, f"{name}:{short}", ok, "resize only ever grows the store (guard implies len <= new length)" if ok else f"`{short}` is not dominated by a guard implying len <= new length: it truncates when records arrive out of block order, dropping already recorded multiplications from the proof (they are later re-created as all-zero, self-consistent blocks)", site_of(b, bb))
+                continue
+            ctx.ob(rule, f"{name}:{short}", False, f"`{short}` on the recorded-multiplications store can discard or replace inputs before they are proved", site_of(b, bb))
+        # direct assignment to the field outside the constructor
+        for bb, idx, s_ in b.iter_assigns():
+            p_ = s_["p"]
+            if len(p_) > 1 and isinstance(p_[-1], list) and p_[-1][0] == "f" and p_[-1][2:] == ["vec"] and "MultiplicationInputsBatch" in (b.local_ty(p_[0]) or ""):
+                ctx.ob(rule, f"{b.path.replace(P, '')}:assign", False, "the store is replaced wholesale", site_of(b, bb, idx))
+        ctx.count(bodies=1)
+    ctx.floor(rule, "operations on the store", n, 8)
